@@ -39,14 +39,104 @@ theorem C09_header_order (method target host : Bytes) (h1 h2 : Bytes × Bytes) (
 theorem C09_host (host : Bytes) :
     hostHeader host = if host.contains 58 then str "Host: [" ++ host ++ str "]" else str "Host: " ++ host := rfl
 
-/-- **CRLF only**: if the pieces contain no CR and no LF, then in the head of the request (everything
-    before the body) every LF is immediately preceded by a CR, i.e. there is no bare LF. -/
-def noBareLF (l : Bytes) : Bool :=
-  (l.head? != some 10) && (l.zip (l.drop 1)).all (fun ab => ab.2 != 10 || ab.1 == 13)
+/-- no bare LF, reading left to right with the previous byte in hand -/
+def nb : Option UInt8 → Bytes → Bool
+  | _, [] => true
+  | p, b :: t => (b != 10 || p == some 13) && nb (some b) t
 
-example : noBareLF (getReq (str "/accessories") (str "10.0.0.1")) = true := by decide +kernel
-example : noBareLF (withBody (str "PUT") (str "/characteristics") (str "fe80::1") (str "application/hap+json") []) = true := by
-  decide +kernel
+def lastOr (p : Option UInt8) (l : Bytes) : Option UInt8 :=
+  match l.getLast? with
+  | some b => some b
+  | none => p
+
+theorem nb_append : ∀ (a b : Bytes) (p : Option UInt8), nb p (a ++ b) = (nb p a && nb (lastOr p a) b) := by
+  intro a
+  induction a with
+  | nil => intro b p; simp [nb, lastOr]
+  | cons x t ih =>
+    intro b p
+    simp only [List.cons_append, nb, ih, Bool.and_assoc]
+    congr 2
+    cases t with
+    | nil => simp [lastOr]
+    | cons y t' =>
+      have : (y :: t').getLast? = some ((y :: t').getLast (by simp)) := List.getLast?_eq_some_getLast (by simp)
+      simp [lastOr, List.getLast?_cons_cons, this]
+
+/-- a piece without CR and LF -/
+def Clean (l : Bytes) : Prop := ∀ b ∈ l, b ≠ 10 ∧ b ≠ 13
+
+instance (l : Bytes) : Decidable (Clean l) := by unfold Clean; infer_instance
+
+theorem nb_clean : ∀ (l : Bytes) (p : Option UInt8), Clean l → nb p l = true := by
+  intro l
+  induction l with
+  | nil => intro _ _; rfl
+  | cons x t ih =>
+    intro p h
+    have hx := h x (by simp)
+    simp only [nb, Bool.and_eq_true, Bool.or_eq_true, bne_iff_ne, ne_eq]
+    exact ⟨Or.inl hx.1, ih _ (fun b hb => h b (by simp [hb]))⟩
+
+theorem nb_crlf (p : Option UInt8) : nb p crlf = true := by
+  simp [nb, crlf]
+
+theorem lastOr_crlf (p : Option UInt8) : lastOr p crlf = some 10 := by simp [lastOr, crlf]
+
+/-- lines without CR/LF joined by CRLF contain no bare LF, whatever precedes them (unless a line is empty at the
+    very start after a non-CR byte - excluded by `p ≠ ...` not being needed: an empty line contributes nothing) -/
+theorem nb_join : ∀ (ls : List Bytes) (p : Option UInt8), (∀ l ∈ ls, Clean l) → nb p (joinCRLF ls) = true := by
+  intro ls
+  induction ls with
+  | nil => intro _ _; rfl
+  | cons x t ih =>
+    intro p h
+    cases t with
+    | nil => exact nb_clean x p (h x (by simp))
+    | cons y t' =>
+      simp only [joinCRLF]
+      rw [nb_append, nb_append, nb_clean x p (h x (by simp)), nb_crlf, Bool.true_and, Bool.true_and]
+      exact ih _ (fun l hl => h l (by simp [hl]))
+
+theorem clean_append (a b : Bytes) (ha : Clean a) (hb : Clean b) : Clean (a ++ b) := by
+  intro x hx
+  rcases List.mem_append.mp hx with h | h
+  · exact ha x h
+  · exact hb x h
+
+theorem clean_str_sp : Clean (str " ") := by decide +kernel
+theorem clean_http : Clean (str " HTTP/1.1") := by decide +kernel
+theorem clean_colon : Clean (str ": ") := by decide +kernel
+theorem clean_host1 : Clean (str "Host: [") := by decide +kernel
+theorem clean_host2 : Clean (str "]") := by decide +kernel
+theorem clean_host3 : Clean (str "Host: ") := by decide +kernel
+
+theorem clean_hostHeader (host : Bytes) (h : Clean host) : Clean (hostHeader host) := by
+  unfold hostHeader
+  split
+  · exact clean_append _ _ (clean_append _ _ clean_host1 h) clean_host2
+  · exact clean_append _ _ clean_host3 h
+
+/-- **CRLF only**: if method, target, host and the header names and values contain no CR and no LF, then in everything
+    the request puts before the body every LF is immediately preceded by a CR - there is no bare LF (and, the pieces
+    being clean, no CR that is not followed by LF either: the only CRs are those of the CRLF separators) -/
+theorem C09_crlf_only (method target host : Bytes) (headers : List (Bytes × Bytes))
+    (hm : Clean method) (ht : Clean target) (hh : Clean host) (hhs : ∀ h ∈ headers, Clean h.1 ∧ Clean h.2) :
+    nb none (build method target host headers []) = true := by
+  simp only [build, List.append_nil]
+  apply nb_join
+  intro l hl
+  simp only [List.mem_append, List.mem_cons, List.mem_map, List.not_mem_nil, or_false] at hl
+  rcases hl with ((rfl | rfl) | ⟨h, hh', rfl⟩) | rfl | rfl
+  · exact clean_append _ _ (clean_append _ _ (clean_append _ _ hm clean_str_sp) ht) clean_http
+  · exact clean_hostHeader host hh
+  · exact clean_append _ _ (clean_append _ _ (hhs h hh').1 clean_colon) (hhs h hh').2
+  · intro b hb; cases hb
+  · intro b hb; cases hb
+
+
+example : nb none (getReq (str "/accessories") (str "10.0.0.1")) = true := by decide +kernel
+example : nb none (str "GET / HTTP/1.1\nHost: x\r\n\r\n") = false := by decide +kernel
 
 /-- **Characteristic ids**: `aid.iid` joined by commas -/
 theorem C09_ids (ids : List (Int × Int)) :
